@@ -62,6 +62,9 @@ type c17World struct {
 	sent   []c16Sent       // frames the client must put on the wire, in order
 	pings  int
 	closed bool
+	msgAPI   bool   // reads go through AsyncNextMessage instead of AsyncNextFrame
+	frameAPI bool   // application writes go through AsyncWriteFrame instead of AsyncWrite
+	mbuf     []byte // message buffer for AsyncNextMessage
 }
 
 func (w *c17World) newOp(kind int) int {
@@ -77,7 +80,7 @@ func (w *c17World) startRead() {
 	}
 	w.readOut = true
 	id := w.newOp(0)
-	w.s.AsyncNextFrame(func(err error, f Frame) {
+	done := func(err error) {
 		w.ops[id].calls++
 		w.ops[id].err = err
 		vf.Assert("read-callback-at-most-once", w.ops[id].calls == 1)
@@ -86,7 +89,25 @@ func (w *c17World) startRead() {
 			w.rearm--
 			w.startRead() // the usual read loop: the callback starts the next read
 		}
+	}
+	if w.msgAPI {
+		w.s.AsyncNextMessage(w.mbuf, func(err error, n int, mt MessageType) { done(err) })
+		return
+	}
+	w.s.AsyncNextFrame(func(err error, f Frame) {
+		if err == nil && f.Opcode() == OpcodePing {
+			w.pingRead(f.Payload())
+		}
+		done(err)
 	})
+}
+
+// pingRead: the client has just processed a Ping; while active it owes the peer one Pong with the same
+// payload, queued at this point (ahead of whatever the application submits later).
+func (w *c17World) pingRead(payload []byte) {
+	if w.s.State() == StateActive {
+		w.sent = append(w.sent, c16Sent{opcode: 10, payload: append([]byte(nil), payload...), n: len(payload)})
+	}
 }
 
 func (w *c17World) startWrite() {
@@ -99,12 +120,19 @@ func (w *c17World) startWrite() {
 	if w.s.State() == StateActive {
 		w.sent = append(w.sent, c16Sent{opcode: 2, payload: b, n: 1})
 	}
-	w.s.AsyncWrite(b, TypeBinary, func(err error) {
+	done := func(err error) {
 		w.ops[id].calls++
 		w.ops[id].err = err
 		vf.Assert("write-callback-at-most-once", w.ops[id].calls == 1)
 		w.writeOut = false
-	})
+	}
+	if w.frameAPI {
+		f := w.s.AcquireFrame()
+		f.SetFIN().SetBinary().SetPayload(b)
+		w.s.AsyncWriteFrame(f, done)
+		return
+	}
+	w.s.AsyncWrite(b, TypeBinary, done)
 }
 
 func (w *c17World) startClose() {
@@ -125,9 +153,6 @@ func (w *c17World) startClose() {
 func (w *c17World) peerPing() {
 	p := vf.Bytes("ping", 1)
 	vkernel.PeerSends(w.fd, wsEncode(nil, &wsFrame{fin: true, opcode: 9, n: 1, payload: p}))
-	if !w.closed {
-		w.sent = append(w.sent, c16Sent{opcode: 10, payload: p, n: 1})
-	}
 	w.pings++
 }
 
@@ -144,15 +169,33 @@ func c17New() *c17World {
 	sonic.NewAsyncAdapter(w.ioc, c17Conn{w.fd}, c17Conn{w.fd}, func(err error, a *sonic.AsyncAdapter) { adapter = a })
 	vf.Assume(adapter != nil)
 	w.s = wsNewStream(adapter, 1<<16)
+	w.mbuf = make([]byte, 16)
+	if vf.Bool("message-api") {
+		w.msgAPI = true
+		vf.Reach("opt:message-api")
+		w.s.SetControlCallback(func(mt MessageType, payload []byte) {
+			if Opcode(mt) == OpcodePing {
+				w.pingRead(payload)
+			}
+		})
+	}
+	if vf.Bool("frame-api") {
+		w.frameAPI = true
+		vf.Reach("opt:frame-api")
+	}
 	return w
 }
 
 // finish: the transport is healthy and the loop is run; the peer keeps sending data so that a
 // pending read can complete. Then every started operation must have completed exactly once and
 // the peer must have received whole frames, each submitted frame once, in order.
-func (w *c17World) finish() {
-	w.peerData()
-	w.peerData()
+func (w *c17World) finish() { w.finishWith(true) }
+
+func (w *c17World) finishWith(data bool) {
+	if data {
+		w.peerData()
+		w.peerData()
+	}
 	vkernel.K.Cfg.Eager = true // from here on every poll reports everything that is ready
 	for p := 0; p < 8; p++ {
 		w.ioc.PollOne()
@@ -202,7 +245,6 @@ func VerifC17_PongFlushAndWrite() {
 	vf.Assume(!w.readOut) // the ping has been delivered; its pong is queued
 	vf.Assert("pong-queued", w.s.Pending() == 1)
 	order := vf.Choice("order", 3)
-	vf.Known("KF-C17-1", order != 2)
 	switch order {
 	case 0:
 		w.startRead()
@@ -250,5 +292,76 @@ func VerifC17_ReadLoopWhileWriting() {
 	w.startWrite()
 	w.peerData()
 	w.finish()
+	vf.Reach("end")
+}
+
+// A read is pending; the application starts the closing handshake (AsyncClose); the peer answers
+// with its Close frame: the close callback and the read callback each run exactly once, the wire
+// holds exactly one Close frame (and what was submitted before it), nothing after it.
+func VerifC17_ReadPendingThenClose() {
+	w := c17New()
+	vf.Unwind(64)
+	w.startRead()
+	if vf.Bool("write-first") {
+		w.startWrite()
+		if vf.Bool("poll-between") {
+			w.ioc.PollOne()
+		}
+	}
+	w.startClose()
+	// the peer completes the closing handshake
+	vkernel.PeerSends(w.fd, wsEncode(nil, &wsFrame{fin: true, opcode: 8, n: 2, payload: []byte{0x03, 0xe8}}))
+	w.finishWith(false)
+	vf.Assert("closing-handshake-complete", w.s.State() != StateActive)
+	vf.Reach("end")
+}
+
+// Free histories: k steps, each one of {start a read (loop or single), start an application write,
+// the peer sends a Ping, the peer sends data, one poll cycle with a symbolic batch}, then the loop is
+// run to quiescence and the application flushes. Every started operation completes exactly once; the
+// wire holds whole frames: one Pong per Ping the client processed and every application frame, each
+// once, in the order they were queued.
+func VerifC17_History() {
+	w := c17New()
+	vf.Unwind(64)
+	K := vf.Bound("k", 3, 5)
+	w.rearm = vf.Choice("rearm", 2)
+	for s := 0; s < K; s++ {
+		switch vf.Choice("action", 5) {
+		case 0:
+			w.startRead()
+		case 1:
+			w.startWrite()
+		case 2:
+			w.peerPing()
+		case 3:
+			w.peerData()
+		case 4:
+			w.ioc.PollOne()
+		}
+	}
+	if w.readOut && w.writeOut {
+		vf.Reach("opt:read-and-write-in-flight-together")
+	}
+	// quiescence: the peer sends data until no read is outstanding, the loop runs, then the application flushes
+	vkernel.K.Cfg.Eager = true
+	vkernel.K.Cfg.MaxWaits = 0 // eager polls do not branch
+	for p := 0; p < 6; p++ {
+		if w.readOut {
+			w.peerData()
+		}
+		w.ioc.PollOne()
+		w.ioc.PollOne()
+	}
+	flushed := 0
+	w.s.AsyncFlush(func(err error) {
+		flushed++
+		vf.Assert("final-flush-ok", err == nil)
+	})
+	for p := 0; p < 4; p++ {
+		w.ioc.PollOne()
+	}
+	vf.Assert("final-flush-completes-once", flushed == 1)
+	w.finishWith(false)
 	vf.Reach("end")
 }
